@@ -105,6 +105,14 @@ def main():
     ck.rng.shuffle(base)
     base = base[: (60 if ck.quick else 140)]
     base += [(n, g) for _, n, g in G.collections(ck.rng, 40 if ck.quick else 200, 2, 2)]
+    # more members than 2n, with duplicates, the identity and products among the first ones
+    for _ in range(12 if ck.quick else 60):
+        n = ck.rng.randint(1, 2)
+        g = [G.uniform(ck.rng, n) for _ in range(ck.rng.randint(1, 2))]
+        g = g + [ck.rng.choice(g), "I" * n][: ck.rng.randint(1, 2)]
+        while len(g) < 2 * n + ck.rng.randint(1, 3):
+            g.append(G.uniform(ck.rng, n))
+        base.append((n, g))
     # three qubits: the symmetries live on six qubits (dense 64 x 64); a few cases in quick, more in thorough
     base += [(3, g) for _, n, g in G.collections(ck.rng, 8 if ck.quick else 40, 3, 3) if len(g) <= 3][: (3 if ck.quick else 25)]
     for n, g in base:
